@@ -210,7 +210,10 @@ func (c *fn) stmt(s ast.Stmt, k kont) string {
 		if c.droppableCall(s.Call) {
 			return c.dropCall(s.Call, k)
 		}
-		c.fail(s, "defer of a call that is not droppable")
+		if lit, ok := unparen(s.Call.Fun).(*ast.FuncLit); ok {
+			return c.deferLit(s, lit, k)
+		}
+		c.fail(s, "defer of a call that is neither droppable nor a function literal")
 	}
 	c.fail(s, "statement %T is not in the GoLite subset", s)
 	return ""
@@ -224,15 +227,57 @@ func (c *fn) returnStmt(s *ast.ReturnStmt) string {
 		}
 		return c.cbRet[n-1](c.exprAs(s.Results[0], types.Universe.Lookup("error").Type()))
 	}
+	if n := len(c.deferRet); n > 0 {
+		// a return of the deferred literal whose body is being run
+		if len(s.Results) != 0 {
+			c.fail(s, "return with values inside a deferred function literal")
+		}
+		return c.deferRet[n-1]()
+	}
 	res := c.sig.Results()
 	if len(s.Results) == 0 {
-		return c.returnTerm(s, nil)
+		return c.finish(s, nil)
+	}
+	// return f(..) where f rebinds variables of this function (the world, in/out arguments): the call first
+	for i, r := range s.Results {
+		call, ok := unparen(r).(*ast.CallExpr)
+		if !ok {
+			continue
+		}
+		if tv, isT := c.info.Types[call.Fun]; isT && tv.IsType() {
+			continue
+		}
+		fi, _, recv := c.calleeInfoSafe(call)
+		if fi == nil || !fi.rebinds() || fi.cbPage != "" {
+			continue
+		}
+		if len(s.Results) == 1 {
+			c.checkTupleRepr(s, call, func(j int) types.Type { return res.At(j).Type() })
+			var tmps []ast.Expr
+			var names []string
+			for j := 0; j < fi.nres; j++ {
+				id := &ast.Ident{Name: "t"}
+				c.synthIdent[id] = c.fresh("t")
+				tmps = append(tmps, id)
+				names = append(names, c.synthIdent[id])
+			}
+			if fi.nres != res.Len() {
+				c.fail(s, "return with %d values for %d results", fi.nres, res.Len())
+			}
+			return c.inoutCall(s, call, fi, recv, tmps, func() string { return c.finish(s, names) })
+		}
+		_ = i
+		c.fail(r, "a call that changes the world or an in/out argument among several returned values")
 	}
 	if len(s.Results) == 1 && res.Len() > 1 {
 		// return f(): the tuple of a call
+		c.checkTupleRepr(s, s.Results[0], func(i int) types.Type { return res.At(i).Type() })
 		e := c.expr(s.Results[0])
 		if len(c.inout) > 0 {
 			c.fail(s, "return of a multi-valued call in a function with mutated map parameters")
+		}
+		if len(c.deferred) > 0 {
+			c.fail(s, "return of a multi-valued call with deferred function literals pending")
 		}
 		if e.isOpt() {
 			if !c.partial {
@@ -252,7 +297,105 @@ func (c *fn) returnStmt(s *ast.ReturnStmt) string {
 	for i, r := range s.Results {
 		es = append(es, c.exprAs(r, res.At(i).Type()))
 	}
-	return c.bindAll(es, "r", func(vs []string) string { return c.returnTerm(s, vs) })
+	return c.bindAll(es, "r", func(vs []string) string { return c.finish(s, vs) })
+}
+
+// deferLit registers `defer func() { .. }()`: the body of the literal runs at
+// every return generated after this point (the statement must be at the top
+// level of the function body, so "after" is also "later in time"). The
+// literal may read the named results and the locals; it must not assign
+// variables declared outside itself, nor recover.
+func (c *fn) deferLit(s *ast.DeferStmt, lit *ast.FuncLit, k kont) string {
+	top := false
+	for _, st := range c.decl.Body.List {
+		if st == ast.Stmt(s) {
+			top = true
+		}
+	}
+	if !top || c.loopDepth > 0 || len(c.cbRet) > 0 || c.noEffect > 0 || len(c.deferRet) > 0 {
+		c.fail(s, "defer of a function literal that is not at the top level of the function body")
+	}
+	if len(s.Call.Args) != 0 || lit.Type.Params.NumFields() != 0 || (lit.Type.Results != nil && lit.Type.Results.NumFields() != 0) {
+		c.fail(s, "deferred function literal with parameters or results")
+	}
+	if as := c.assignedIn(lit); len(as) > 0 {
+		for _, o := range as {
+			if o != types.Object(c.worldObj) {
+				c.fail(s, "the deferred function literal assigns %s, which is declared outside it", o.Name())
+			}
+		}
+	}
+	ast.Inspect(lit.Body, func(n ast.Node) bool {
+		switch x := n.(type) {
+		case *ast.CallExpr:
+			if id, ok := unparen(x.Fun).(*ast.Ident); ok {
+				if b, ok := c.info.Uses[id].(*types.Builtin); ok && b.Name() == "recover" {
+					c.fail(x, "recover is not supported")
+				}
+			}
+		case *ast.DeferStmt, *ast.GoStmt:
+			c.fail(n, "defer / go inside a deferred function literal")
+		}
+		return true
+	})
+	n := len(c.deferred)
+	c.deferred = append(c.deferred, lit)
+	defer func() { c.deferred = c.deferred[:n] }()
+	return k()
+}
+
+// finish: what a return yields. The pending deferred literals run first (last
+// registered first), after the returned values were stored in the named
+// results (or in temporaries).
+func (c *fn) finish(n ast.Node, vals []string) string {
+	ds := c.deferred
+	if len(ds) == 0 {
+		return c.returnTerm(n, vals)
+	}
+	pre := ""
+	if vals != nil {
+		if len(c.namedRes) > 0 {
+			if len(vals) != len(c.namedRes) {
+				c.fail(n, "return with %d values for %d named results", len(vals), len(c.namedRes))
+			}
+			tmps := make([]string, len(vals))
+			for i, v := range vals {
+				tmps[i] = c.fresh("r")
+				pre += "let " + tmps[i] + " := " + v + " in "
+			}
+			for i, r := range c.namedRes {
+				pre += c.letVar(r, tmps[i])
+			}
+			vals = nil
+		} else {
+			tmps := make([]string, len(vals))
+			for i, v := range vals {
+				tmps[i] = c.fresh("r")
+				pre += "let " + tmps[i] + " := " + v + " in "
+			}
+			vals = tmps
+		}
+	}
+	c.deferred = nil
+	defer func() { c.deferred = ds }()
+	var rec func(i int) string
+	rec = func(i int) string {
+		if i < 0 {
+			return c.returnTerm(n, vals)
+		}
+		nd := len(c.deferRet)
+		c.deferRet = append(c.deferRet, func() string {
+			saved := c.deferRet
+			c.deferRet = c.deferRet[:nd]
+			defer func() { c.deferRet = saved }()
+			return rec(i - 1)
+		})
+		defer func() { c.deferRet = c.deferRet[:nd] }()
+		return c.scoped(func() string {
+			return c.block(ds[i].Body.List, func() string { return c.deferRet[nd]() })
+		})
+	}
+	return pre + rec(len(ds)-1)
 }
 
 func (c *fn) bindAll(es []cx, hint string, f func(vs []string) string) string {
@@ -742,7 +885,9 @@ func (c *fn) rangeStmt(s *ast.RangeStmt, k kont) string {
 }
 
 // forStmt supports the two counted forms
-//   for i := a; i < b; i++     and     for i := a; i >= b; i--
+//
+//	for i := a; i < b; i++     and     for i := a; i >= b; i--
+//
 // (also <= and >) when i and the variables of the bound are not assigned in the body.
 func (c *fn) forStmt(s *ast.ForStmt, k kont) string {
 	bad := func(why string) string {
@@ -913,7 +1058,25 @@ func (c *fn) exprForVar(o types.Object, e ast.Expr) cx {
 	if c.asValue[o] {
 		return c.pointee(e)
 	}
-	return c.exprAs(e, o.Type())
+	r := c.exprAs(e, o.Type())
+	if c.opts != nil && c.g.kind(o.Type(), c.sub) == kError {
+		for _, n := range c.opts.LocalErrorIdentity {
+			if n == o.Name() {
+				// an error-typed local with an identity of its own: the identity replaces the typ
+				done := false
+				for _, pre := range []string{`(Some (Err "errors" `, `(Some (Err "fmt" `} {
+					if strings.HasPrefix(r.s, pre) {
+						r.s = "(Some (Err " + CStr("error#"+o.Name()) + " " + r.s[len(pre):]
+						done = true
+					}
+				}
+				if !done {
+					c.fail(e, "LocalErrorIdentity: %s is not initialised by errors.New / fmt.Errorf", o.Name())
+				}
+			}
+		}
+	}
+	return r
 }
 
 func (c *fn) exprStmt(s *ast.ExprStmt, k kont) string {
@@ -956,7 +1119,7 @@ func (c *fn) exprStmt(s *ast.ExprStmt, k kont) string {
 	if fi.cbPage != "" {
 		return c.callbackCall(s, call, fi, recv, nil, k)
 	}
-	if fi.inoutCount() == 0 {
+	if !fi.rebinds() {
 		if fi.oracle && !fi.drop {
 			// an oracle called for its effect: nothing of it would remain
 			args := call.Args
@@ -1000,7 +1163,26 @@ func (c *fn) inoutCall(n ast.Node, call *ast.CallExpr, fi *fnInfo, recv ast.Expr
 	if lhs != nil && len(lhs) != fi.nres {
 		c.fail(n, "%d variables for the %d results of %s", len(lhs), fi.nres, fi.label)
 	}
-	all := append([]ast.Expr{}, targets...)
+	if lhs != nil {
+		c.checkTupleRepr(n, call, func(i int) types.Type {
+			if i < len(lhs) && lhs[i] != nil {
+				return c.lhsType(lhs[i])
+			}
+			return nil
+		})
+	}
+	var all []ast.Expr
+	if fi.effect {
+		if !c.effect {
+			panic(needEffect{})
+		}
+		if c.noEffect > 0 {
+			c.fail(n, "%s acts on the outside world and is called inside a function literal", fi.label)
+		}
+		all = append(all, c.worldIdent)
+	}
+	nOwn := len(all) + len(targets)
+	all = append(all, targets...)
 	for i := 0; i < fi.nres; i++ {
 		if lhs != nil {
 			all = append(all, lhs[i])
@@ -1008,15 +1190,74 @@ func (c *fn) inoutCall(n ast.Node, call *ast.CallExpr, fi *fnInfo, recv ast.Expr
 			all = append(all, nil)
 		}
 	}
-	return c.bind(c.call(call), "t", func(tv string) string { return c.destructure(tv, all, len(targets), k) })
+	return c.bind(c.call(call), "t", func(tv string) string { return c.destructure(tv, all, nOwn, k) })
+}
+
+// lhsType: the type of an lvalue (nil for the blank identifier).
+func (c *fn) lhsType(l ast.Expr) types.Type {
+	if id, ok := unparen(l).(*ast.Ident); ok {
+		if id.Name == "_" {
+			return nil
+		}
+		if o := c.objOf(id); o != nil {
+			return o.Type()
+		}
+		return nil
+	}
+	return c.info.TypeOf(l)
+}
+
+// checkTupleRepr refuses the use of a multi-valued call whose i-th result goes
+// to a place of another type with a different Coq representation: Go converts
+// implicitly there (a concrete value to an interface, an interface to a wider
+// one), and on the components of a tuple the translation does not insert the
+// conversion.
+func (c *fn) checkTupleRepr(n ast.Node, call ast.Expr, want func(i int) types.Type) {
+	tup, ok := c.info.TypeOf(unparen(call)).(*types.Tuple)
+	if !ok {
+		return
+	}
+	for i := 0; i < tup.Len(); i++ {
+		wt := want(i)
+		if wt == nil {
+			continue
+		}
+		from := tup.At(i).Type()
+		if types.Identical(resolve(from, c.sub), resolve(wt, c.sub)) {
+			continue
+		}
+		if c.g.kind(from, c.sub) == kDropped || c.g.kind(wt, c.sub) == kDropped {
+			continue
+		}
+		if c.g.typ(from, c.sub) != c.g.typ(wt, c.sub) {
+			c.fail(n, "result %d of the call has type %s and is used as %s: the implicit conversion of a component of a multi-valued call is not supported",
+				i+1, types.TypeString(from, nil), types.TypeString(wt, nil))
+		}
+	}
 }
 
 // destructure binds the components of a tuple-valued term to lvalues (nil = discarded).
 // The first nOwn entries are in/out targets (they receive pointees).
 func (c *fn) destructure(tv string, lhs []ast.Expr, nOwn int, k kont) string {
+	synth := func(l ast.Expr) (string, bool) {
+		id, ok := l.(*ast.Ident)
+		if !ok {
+			return "", false
+		}
+		if c.worldIdent != nil && id == c.worldIdent {
+			return c.nameOf(c.worldObj), true
+		}
+		if n, ok := c.synthIdent[id]; ok {
+			return n, true
+		}
+		return "", false
+	}
 	if len(lhs) == 1 {
 		if lhs[0] == nil {
 			return k()
+		}
+		if n, ok := synth(lhs[0]); ok {
+			return "let " + n + " := " + tv + " in " + k()
 		}
 		return c.store(lhs[0], func(cx) cx { return cx{s: tv} }, k)
 	}
@@ -1029,6 +1270,10 @@ func (c *fn) destructure(tv string, lhs []ast.Expr, nOwn int, k kont) string {
 	for li, l := range lhs {
 		if l == nil {
 			pats = append(pats, "_")
+			continue
+		}
+		if n, ok := synth(l); ok {
+			pats = append(pats, n)
 			continue
 		}
 		id, isId := unparen(l).(*ast.Ident)
@@ -1104,7 +1349,7 @@ func (c *fn) assignStmt(s *ast.AssignStmt, k kont) string {
 					}
 					return c.callbackCall(s, call, fi, recv, s.Lhs[0], k)
 				}
-				if fi, _, recv := c.calleeInfo(call); fi != nil && fi.inoutCount() > 0 {
+				if fi, _, recv := c.calleeInfo(call); fi != nil && fi.rebinds() {
 					return c.inoutCall(s, call, fi, recv, s.Lhs, k)
 				}
 			}
@@ -1144,6 +1389,12 @@ func (c *fn) assignStmt(s *ast.AssignStmt, k kont) string {
 	var tuple cx
 	switch r := rhs.(type) {
 	case *ast.CallExpr:
+		c.checkTupleRepr(s, r, func(i int) types.Type {
+			if i < len(s.Lhs) {
+				return c.lhsType(s.Lhs[i])
+			}
+			return nil
+		})
 		tuple = c.call(r)
 	case *ast.IndexExpr:
 		mt, ok := resolve(c.info.TypeOf(r.X), c.sub).Underlying().(*types.Map)
